@@ -51,16 +51,16 @@ type callRec struct {
 }
 
 type c06obs struct {
-	calls    []callRec
-	enabled  []enabledEv
-	final    [2][]string // per party, per channel: encoding of the final current state
-	phases   [2][]string
-	probe    []string
-	hErrs    []string
-	openErr  string
-	nOpen    int
-	chIDs    []channel.ID
-	sent     int
+	calls   []callRec
+	enabled []enabledEv
+	final   [2][]string // per party, per channel: encoding of the final current state
+	phases  [2][]string
+	probe   []string
+	hErrs   []string
+	openErr string
+	nOpen   int
+	chIDs   []channel.ID
+	sent    int
 }
 
 func classify(err error) string {
@@ -250,7 +250,7 @@ func c06execEarly(t *testing.T, pr c06prog, o vsched.Options) (*vsched.Sched, an
 			vsched.Send(done, struct{}{})
 		})
 		vsched.Sleep(100 * time.Millisecond) // the request reaches B and is cached
-		gate.open[ch0.ID()] = true            // opening 0 completes at B: the cached request is handled
+		gate.open[ch0.ID()] = true           // opening 0 completes at B: the cached request is handled
 		vsched.Recv(done)
 		vsched.Sleep(100 * time.Millisecond)
 		gate.open[ch1.ID()] = true // opening 1 completes at B
@@ -556,4 +556,6 @@ func c06lookup(n string) c06prog {
 }
 
 var c06harness = schedrun.Harness{Name: "clients", Scenarios: c06scenarios, Exec: c06exec, Check: c06check, Digest: c06digest,
-	Describe: func(_ schedrun.Scenario, s *vsched.Sched, o any) string { return fmt.Sprintf("  %v", summarize(o.(*c06obs))) }, MaxExecsPerProcess: 6000}
+	Describe: func(_ schedrun.Scenario, s *vsched.Sched, o any) string {
+		return fmt.Sprintf("  %v", summarize(o.(*c06obs)))
+	}, MaxExecsPerProcess: 6000}
